@@ -349,6 +349,15 @@ loop:
 func (state *state) add(clientID string, q Query, subscription *Subscription) {
 	qStr := q.String()
 
+	// Two Subscribe calls for the same client and query that were in flight at
+	// the same time both pass the check in Server.subscribe. Keep the
+	// subscription we already have and tell the second caller; replacing it
+	// would leave the first one neither served nor cancelled.
+	if _, ok := state.subscriptions[qStr][clientID]; ok {
+		subscription.cancel(ErrAlreadySubscribed)
+		return
+	}
+
 	// initialize subscription for this client per query if needed
 	if _, ok := state.subscriptions[qStr]; !ok {
 		state.subscriptions[qStr] = make(map[string]*Subscription)
